@@ -5,6 +5,7 @@ package cl
 import (
 	"fmt"
 	"io"
+	"strings"
 
 	"github.com/ohler55/slip"
 )
@@ -70,6 +71,8 @@ func (f *Defun) Call(s *slip.Scope, args slip.List, depth int) (result slip.Obje
 	if pkg == nil {
 		pkg = slip.CurrentPackage
 	}
+	// Functions are registered and looked up by their lowercase name.
+	low = strings.ToLower(low)
 	lc := slip.DefLambda(low, s, args[1:])
 	if xlam := pkg.GetLambda(low); xlam != nil {
 		// Keep one lambda per name so that callers compiled before and
